@@ -91,7 +91,7 @@ func init() {
 			replies("text-get-after-failed-multiget", map[string]int64{"pipeline": 2, "getfault": 1, "text": 1}, c08only, "the same over the text protocol with gets of 2-3 keys followed by a 1-key get"),
 		},
 		Thorough: []Job{
-			replies("binary-3keys-2bytes", map[string]int64{"pipeline": 2, "nk": 3, "dlen": 2, "len0": 3}, c08only, "as quick with 3 keys, stored values 3 bytes, written values 2 bytes"),
+			replies("binary-3keys-2bytes", map[string]int64{"pipeline": 1, "nk": 3, "dlen": 2, "len0": 3}, c08only, "single binary request with 3 keys, stored values 3 bytes, written values 2 bytes"),
 			replies("text-flags-5digits", map[string]int64{"pipeline": 1, "text": 1, "maxflags": 99999, "digits": 3}, c08only, "single text request, stored flags up to 99999 (1-5 digit renderings), 3-digit numeric request fields"),
 		}})
 
